@@ -80,11 +80,15 @@ impl TaintAnalysis {
 
     /// Returns variables tainted in zero or more steps by `source`.
     pub fn multi_step_taint(&self, source: &VariableName) -> HashSet<VariableName> {
-        let mut result = HashSet::new();
-        let mut update = HashSet::from([source.clone()]);
-        while !update.is_subset(&result) {
-            result.extend(update.iter().cloned());
-            update = update.iter().flat_map(|source| self.single_step_taint(source)).collect();
+        // Work-list closure: each variable is expanded once.
+        let mut result = HashSet::from([source.clone()]);
+        let mut worklist = vec![source];
+        while let Some(var) = worklist.pop() {
+            for sink in self.taint_map.get(var).into_iter().flatten() {
+                if result.insert(sink.clone()) {
+                    worklist.push(sink);
+                }
+            }
         }
         result
     }
